@@ -272,13 +272,13 @@ func batchSweepReplayer(prop string, ob *Obligation, cfg string, dir string) (bo
 }
 
 func init() {
-	for _, p := range []string{"vh_C06_", "vh_C04_batch", "vh_C05_batch", "vh_C07_batch", "vh_C13_batch", "vh_C03_batch"} {
+	for _, p := range []string{"vh_C06_", "vh_C04_batch", "vh_C05_batch", "vh_C07_batch", "vh_C13_batch", "vh_C03_batch", "vh_C09_batch"} {
 		customReplayers[p] = batchSweepReplayer
 	}
-	for _, p := range []string{"vh_C01_", "vh_C05_Verify", "vh_C04_verify"} {
+	for _, p := range []string{"vh_C01_", "vh_C05_Verify", "vh_C04_verify", "vh_C07_"} {
 		customReplayers[p] = verifySweepReplayer
 	}
-	for _, p := range []string{"vh_C02_", "vh_C14_GenerateKey", "vh_C14_accessors"} {
+	for _, p := range []string{"vh_C02_", "vh_C14_GenerateKey", "vh_C14_accessors", "vh_C07_Sign"} {
 		customReplayers[p] = signSweepReplayer
 	}
 }
